@@ -16,8 +16,8 @@ def plan(tier):
           (PG.memory_leak_respawn(2, None, "nowait"), 1, PT)]
     if tier == "thorough":
         pl += [(PG.warm_then(1, 0.05, "await"), 2, PT), (PG.warm_then(2, 0.05, "await"), 2, dict(kinds=("T",))),
-               (PG.idle_then_submit(2, 0.05), 2, dict(kinds=("T",))),
-               (PG.timeout_resize(2, 1), 2, dict(kinds=("T",)))]
+               (PG.idle_then_submit(1, 0.05), 2, dict(kinds=("T", "P"), p_scope="parent:")),
+               (PG.timeout_resize(2, 1), 2, dict(kinds=("T",), t_scope="worker", t_cur="parent:"))]
     return pl
 
 
